@@ -577,6 +577,13 @@ def run_c17(chk, prog):
     # the byte-stream leg of the serial path (both directions, at the bus and at the bridge) is Frame::read / Frame::write
     n = chk.include("C17.io", run_c15, prog)
     chk.floor("C17.io", "obligations on Frame::write / Frame::read (the byte-stream leg)", n, 15)
+    # the other legs of the composition (lemma L5): frame <-> bytes (C01), frame <-> message (C04, C05), the serial bus (C16)
+    import p_frame, p_msgmap
+    n = chk.include("C17.codec", p_frame.run_c01, prog)
+    n += chk.include("C17.msg", p_msgmap.run_c04, prog)
+    n += chk.include("C17.msg", p_msgmap.run_c05, prog, keep=lambda r: not r.startswith("C05.wire"))
+    n += chk.include("C17.bus", run_c16, prog, keep=lambda r: not r.startswith("C16.io"))
+    chk.floor("C17", "obligations of the composed legs (codec, message mapping, serial bus)", n, 200)
     units = a2.Units(prog)
     models = Models(prog)
     fn = one(prog.inherent(ODK, "process_message"), "Odk::process_message")
